@@ -599,6 +599,7 @@ pub fn phase(sim: &mut Sim, rng: &mut Rng, rep: &mut Report) -> Result<(), Strin
 			rep.count("onchain_restarts_during_resolution");
 			events_all(sim, rep);
 		}
+		sim.midchain(rep);
 		if !sim.raised.is_empty() {
 			return Ok(());
 		}
